@@ -149,7 +149,7 @@ def _key(p, cb):
     return '%d,%d' % (p, cb)
 
 
-def gen_flat(rng, i, nested_unqueued=False):
+def gen_flat(rng, i, nested_unqueued=False, may_crash=False):
     base = flat.gen_case(rng, malformed=(i % 13 == 12), hist_len=rng.randint(1, 5), may=(rng.random() < 0.3),
                          p_unknown=0.08)
     m = base['machine']
@@ -164,6 +164,30 @@ def gen_flat(rng, i, nested_unqueued=False):
     nm = rng.choice([1, 1, 2, 3]) if mode == 1 else rng.choice([1, 1, 2])
     models = [(k, rng.randrange(ns)) for k in range(nm)]
     hist = [(rng.randrange(nm), k, e, a) for (k, e, a) in base['history']]
+    crash_cb = None
+    if may_crash:
+        # directed: the first call is may_trigger of an event with candidates from the model's state (preferably >= 2);
+        # a callback evaluated for the FIRST candidate (prepare / check, sometimes prepare_event) raises, on_exception
+        # handlers are registered: the remaining candidates must still be inspected (Machine._can_trigger)
+        if not m['on_exception']:
+            ncb += 1
+            m['on_exception'] = [ncb]
+        s0 = models[0][1]
+        opts = [(e, [t for t in ts if t['src'] == s0]) for e, ts in m['events']]
+        opts = [(e, cs) for e, cs in opts if cs]
+        multi = [x for x in opts if len(x[1]) >= 2]
+        if opts:
+            e, cs = rng.choice(multi or opts)
+            first = cs[0]
+            pool = first['prepare'] + [c for c, _ in first['conds']]
+            if not pool:
+                ncb += 1
+                first['prepare'] = [ncb]
+                pool = [ncb]
+            if m['prepare_event'] and rng.random() < 0.15:
+                pool = list(m['prepare_event'])
+            crash_cb = rng.choice(pool)
+            hist[0] = (0, 1, e, hist[0][3])
     checks = {c for _, ts in m['events'] for t in ts for c, _ in t['conds']}
     unless = {c for _, ts in m['events'] for t in ts for c, tg in t['conds'] if not tg}
     p_pass = 0.7
@@ -256,9 +280,9 @@ def gen_flat(rng, i, nested_unqueued=False):
                 susp_key[key] = 0
         return normalise_susp(case)
     # one raising callback
-    if ncb and rng.random() < 0.25:
-        p = rng.choice(payloads)
-        c = rng.randint(1, ncb)
+    if ncb and (crash_cb is not None or rng.random() < 0.25):
+        p = hist[0][3] if crash_cb is not None else rng.choice(payloads)
+        c = crash_cb if crash_cb is not None else rng.randint(1, ncb)
         old = env['bykey'].get(_key(p, c), (val(c), None, []))
         env['bykey'][_key(p, c)] = (old[0], (3 + rng.randrange(2), 1 + rng.randrange(3)), old[2])
         case['raise'] = [p, c]
@@ -308,6 +332,8 @@ def gen_hsm(rng, i):
 
 
 def gen(rng, i, tier):
+    if i % 10 == 7:
+        return gen_flat(rng, i * 13 + 1, may_crash=True)      # never the malformed stream
     if i % 3 == 2:
         return gen_hsm(rng, i)
     return gen_flat(rng, i)
@@ -1207,8 +1233,87 @@ def hsm_reent_async_stream(seed, n):
     return cases, bad, nested
 
 
+RAW_VALUES = [2, 0, 1, -1, 1.0, 0.0, [], [1], (), None, '', 'x', {}, True, False]
+
+
+def raw_value_sweep():
+    """conditions / unless checks returning something that is not a bool (Condition.check compares the value with ==,
+    it does not convert it): finite sweep RAW_VALUES x {conditions, unless} x {plain function, async def, plain function
+    returning a resolved Future, object with __await__} x send_event x {AsyncMachine, HierarchicalAsyncMachine}, two
+    candidates (the guarded one first); result and state of go() and the answer of may_go() must be Machine's"""
+    tr = flat._import_transitions()
+    from transitions.extensions.asyncio import AsyncMachine, HierarchicalAsyncMachine
+    rows, bad = 0, []
+    for kind in ('conditions', 'unless'):
+        for vi, v in enumerate(RAW_VALUES):
+            for send in (False, True):
+                def build(cls, cb):
+                    class M(object):
+                        pass
+                    mo = M()
+                    cls(mo, states=['A', 'B', 'C'], initial='A', auto_transitions=False, send_event=send,
+                        transitions=[dict(trigger='go', source='A', dest='B', **{kind: [cb]}),
+                                     dict(trigger='go', source='A', dest='C')])
+                    return mo
+
+                def obs_sync():
+                    mo = build(tr.Machine, lambda *a, **k: v)
+                    may = bool(mo.may_go())
+                    try:
+                        r = [0, bool(mo.go())]
+                    except BaseException as ex:  # noqa
+                        r = [1, flat.classify_exc(ex)]
+                    return [may, r, str(mo.state)]
+                want = obs_sync()
+                for cname, cls in (('AsyncMachine', AsyncMachine), ('HierarchicalAsyncMachine', HierarchicalAsyncMachine)):
+                    for ck in ('plain', 'async def', 'resolved Future', '__await__ object'):
+                        if ck == 'plain':
+                            def cb(*a, **k):
+                                return v
+                        elif ck == 'async def':
+                            async def cb(*a, **k):
+                                return v
+                        elif ck == 'resolved Future':
+                            def cb(*a, **k):
+                                f = asyncio.get_running_loop().create_future()
+                                f.set_result(v)
+                                return f
+                        else:
+                            def cb(*a, **k):
+                                class Aw(object):
+                                    def __await__(self_):
+                                        yield from asyncio.sleep(0).__await__()
+                                        return v
+                                return Aw()
+
+                        async def run():
+                            mo = build(cls, cb)
+                            may = bool(await mo.may_go())
+                            try:
+                                r = [0, bool(await mo.go())]
+                            except BaseException as ex:  # noqa
+                                r = [1, flat.classify_exc(ex)]
+                            return [may, r, str(mo.state)]
+                        got = asyncio.run(run())
+                        rows += 1
+                        if got != want:
+                            bad.append(dict(cls=cname, kind=kind, value=repr(v), send_event=send, callable=ck, got=got,
+                                            Machine=want))
+    return rows, bad
+
+
 def extra_checks(tier, seed):
     out = []
+    # (0) non-bool values of conditions / unless checks, returned directly or through an awaitable
+    nrows, badrows = raw_value_sweep()
+    out.append(('raw_condition_values_async_vs_Machine', not badrows,
+                dict(runs=nrows, values=[repr(v) for v in RAW_VALUES], differing=len(badrows)),
+                None if not badrows else dict(kind='counterexample', case=dict(sub='raw-condition-values'),
+                                              detail=badrows[:5], impl_obs=badrows[0]['got'], model_obs=badrows[0]['Machine'],
+                                              first_difference='a condition/unless value that is not a bool is honoured '
+                                                               'differently by the asyncio class than by Machine',
+                                              theorem='corr_C07 (C07_cond_awaitable: the value of a check is honoured '
+                                                      'as it is, directly or through an awaitable)')))
     # (1) queued=False with triggers awaited from callbacks: AsyncMachine against Machine (no Coq model of the
     # re-entrant unqueued engine): blocks up to stage_view, nesting structure, results of the nested triggers
     n = 400 if tier == 'quick' else 6000
